@@ -91,6 +91,19 @@ Theorem C18_read_from_general : forall w pkt s, length pkt = 188 ->
 Proof. exact read_from_general. Qed.
 Print Assumptions C18_read_from_general.
 
+(* safety for EVERY writer oracle, slice and script: whatever the wrapped writer answers, the packets
+   it is handed are a prefix of the complete chunks, in order, each once, unmodified (and nothing at
+   all for a slice of bad length) *)
+Theorem C18_write_prefix : forall w pkt p, length pkt = 188 ->
+  exists n e j, write w pkt p = Ok (n, e, firstn j (full_chunks p)).
+Proof. exact write_prefix. Qed.
+Print Assumptions C18_write_prefix.
+
+Theorem C18_read_from_prefix : forall w pkt s, length pkt = 188 ->
+  exists n e j, read_from w pkt s = Ok (n, e, firstn j (full_chunks (script_data s))).
+Proof. exact read_from_prefix. Qed.
+Print Assumptions C18_read_from_prefix.
+
 (* F2 (DESIGN section 7), re-established in Coq: ReadFrom as pinned in /repo before the repair
    (Model/PacketWriter.v rf_loop_pinned: one Read per iteration) falsifies the fragmentation
    clause: one packet arriving as two 94-byte reads is not delivered and invalid-length is
